@@ -2302,6 +2302,11 @@ impl<'store> FindTextSelectionsIter<'store> {
                 //which we prefer to keep as small as possible (based on the operator)
                 self.init_textseliters();
             }
+            if self.textseliters.is_empty() {
+                //nothing to search in (e.g. an empty reference set)
+                self.drain_buffer = true;
+                return None;
+            }
             let forward = self.textseliters.get_mut(self.textseliter_index).unwrap().1;
             if forward {
                 if let Some(textselection) = self
